@@ -267,6 +267,18 @@ func runC34(rec *kit.Recorder, c lsCase) (err error) {
 			if err := c34CheckSync(w, where, exp, reject, c.ShardLimit >= 500 && c.ShardLimit < 4000, fErr, before, after, st); err != nil {
 				return err
 			}
+			linked := false
+			for _, a := range ras {
+				linked = linked || a.Linked
+			}
+			if linked {
+				st.label("sync:root-through-symlink")
+				if reject != "" {
+					st.label("sync:root-through-symlink-rejected-" + reject)
+				} else if len(ras) > 1 {
+					st.label("sync:root-through-symlink-multi-root-ok")
+				}
+			}
 			if reject != "" {
 				st.label("sync:rejected-" + reject)
 			} else {
@@ -335,10 +347,12 @@ func runC34(rec *kit.Recorder, c lsCase) (err error) {
 func TestVerif_C34(t *testing.T) {
 	lsSetup(t)
 	rec := kit.Open(t, "C34",
-		"rapid-generated histories of 2-6 steps over 4 root directories (two with the same base name, one ending in .git): each step mutates the roots (add non-bare / bare / gitfile / root-level / nested repositories and *.git look-alikes, delete, move between roots, rename, new commit, config change, foreign shard written into the index) and then runs `sync -f <roots>` (root sets vary, sub-directories of roots and overlapping roots included) or `remove -f <selectors>`; a case = one history; non-trivial = the history performed >= 1 removal and >= 1 re-index of an already indexed name, or synced after a repository move; distinct by hash of the JSON case",
+		"rapid-generated histories of 2-6 steps over 4 root directories (two with the same base name, one ending in .git): each step mutates the roots (add non-bare / bare / gitfile / root-level / nested repositories and *.git look-alikes, delete, move between roots, rename, new commit, config change, foreign shard written into the index) and then runs `sync -f <roots>` (root sets vary, sub-directories of roots and overlapping roots included; in a seventh of the syncs one root argument is given through a symbolic link - as the only name of a root / sub-directory / repository, as an alias next to the directory's own path, or as a link into a sub-directory of another root argument, the link being the last or a leading path component; in 40% of the histories leftover <shard>.N.tmp / <shard>.meta.N.tmp files, unrelated files and sub-directories are put into the index directory) or `remove -f <selectors>`; a case = one history; non-trivial = the history performed >= 1 removal and >= 1 re-index of an already indexed name, or synced after a repository move; distinct by hash of the JSON case",
 		"build options are constant across a history (-disable_ctags -submodules=false -shard_limit N)",
 		"discovery model (independent, over the layout description): a directory with .git (directory or gitfile) is a repository named by its slash path relative to the root argument (the root's base name for the root itself); a directory named *.git with an objects directory is a bare repository named likewise minus the .git suffix; directories inside a repository are not searched; a *.git directory without objects is not a repository",
 		"a root set in which one repository is reachable from two root arguments is expected to be rejected like a duplicate name (the tool documents this error); duplicate root arguments likewise",
+		"the discovery model works on resolved paths, as discover.go does (resolveRoots canonicalises every root with EvalSymlinks before the duplicate-root / discovered-by-more-than-one-root / naming decisions): a root argument that is a symbolic link stands for the directory it points at - names and sources are those of the real directory, two arguments that resolve to one directory are a duplicate root, a link into another root's sub-directory makes the repositories below it discovered twice; the link's own name is irrelevant. Links are only used as root arguments, never placed inside a root",
+		"files in the index directory that are not *.zoekt shards or their .meta sidecars (leftover temporary files, unrelated files, sub-directories) are not part of the index: they are not repositories, and remove -f / a rejected sync -f must leave them alone like everything else that is not selected",
 		"'index unchanged' after a rejected sync is judged without the lock file and the index directory's own mtime/existence (the lock is taken before discovery)",
 		"every generated repository is a valid git repository with a HEAD commit, so a failing sync -f / remove -f whose selectors each name exactly one indexed repository is reported (unexpected-*-failure)",
 		"a third of the histories use a small -shard_limit (1500-3000) and repositories of ~4.5 KB that then span several shards; a repository must be present as one file-name prefix with shards numbered 0..n-1 without gaps, every shard naming the same repository, source and HEAD; small repositories (or the 1 MiB limit) must be exactly one shard; up to date = every shard's only branch is HEAD at the repository's HEAD commit and its source is the repository's path",
